@@ -1047,6 +1047,22 @@ func (r *dtRun) all() {
 		}
 		r.dec(asetypes.UNITEXT, ub)
 	}
+	// texts whose first or last character a reader might be tempted to tidy away: byte order marks, blanks, line ends
+	for _, u := range []string{"\ufeffabc", "\ufeff", "a\ufeff", "\ufffeabc", "\ufeff\ufeff", " x", "x ", "\nx", "x\n", "\u3000x\u3000", "\u00a0", "\ufeff\U0001F600"} {
+		r.rt(asetypes.UNITEXT, u, 0x7fffffff)
+		u16 := utf16.Encode([]rune(u))
+		ub := make([]byte, 0, 2*len(u16))
+		for _, c := range u16 {
+			ub = le.AppendUint16(ub, c)
+		}
+		r.dec(asetypes.UNITEXT, ub)
+		for _, t := range []asetypes.DataType{asetypes.CHAR, asetypes.VARCHAR, asetypes.LONGCHAR, asetypes.TEXT} {
+			r.rt(t, u, 255)
+			r.dec(t, []byte(u))
+		}
+		r.pkg(asetypes.VARCHAR, u, 255, 0, 0)
+		r.pkg(asetypes.CHAR, u, 255, 0, 0)
+	}
 	// --- NULL: zero length both ways, for every nullable type ---
 	for _, t := range []asetypes.DataType{asetypes.INTN, asetypes.UINTN, asetypes.FLTN, asetypes.MONEYN, asetypes.DECN, asetypes.NUMN, asetypes.DATEN, asetypes.TIMEN, asetypes.DATETIMEN,
 		asetypes.BIGDATETIMEN, asetypes.BIGTIMEN, asetypes.BINARY, asetypes.VARBINARY, asetypes.LONGBINARY, asetypes.CHAR, asetypes.VARCHAR, asetypes.LONGCHAR, asetypes.TEXT, asetypes.IMAGE, asetypes.UNITEXT} {
